@@ -1,8 +1,9 @@
 import NemoVerif.Drive.Common
 import NemoVerif.Models.Stream
+import NemoVerif.Models.StreamAsIs
 
 namespace NemoVerif.Drive.C18
-open Lean NemoVerif NemoVerif.Drive NemoVerif.Stream
+open Lean NemoVerif NemoVerif.Drive NemoVerif.Stream NemoVerif.StreamAsIs
 
 def strOf (j : Json) : Except String Str := do
   match j with
@@ -28,6 +29,13 @@ def stToJson (pipe : Bool) (s : St) : Json :=
     ("completion", Json.str (String.ofList s.completion)),
     ("finished", Json.bool s.finished)]
 
+def itemsJson (pipe : Bool) (out : List (Option Str)) : Json :=
+  Json.arr ((if pipe then pipeTarget out else out).map (fun o => match o with | none => Json.null | some c => Json.str (String.ofList c))).toArray
+
+def stAToJson (pipe : Bool) (s : StA) : Json :=
+  Json.mkObj [("items", itemsJson pipe s.out), ("completion", Json.str (String.ofList s.completion)),
+    ("finished", Json.bool s.finished), ("overflow", Json.bool s.overflow)]
+
 def handle (op : String) (j : Json) : Except String Json := do
   match op with
   | "runMany" =>
@@ -37,7 +45,11 @@ def handle (op : String) (j : Json) : Except String Json := do
     let pipe := match j.getObjVal? "pipe" with | .ok (.bool b) => b | _ => false
     let css ← (← (← j.getObjVal? "chunkings").getArr?).toList.mapM fun cj => do
       (← cj.getArr?).toList.mapM strOf
-    pure (Json.arr (css.map (fun cs => stToJson pipe (run cfg (if tok then viaTokens cs else cs) e))).toArray)
+    let asis := match j.getObjVal? "asis" with | .ok (.bool b) => b | _ => false
+    if asis then
+      pure (Json.arr (css.map (fun cs => stAToJson pipe (runA cfg 64 (if tok then viaTokens cs else cs) e))).toArray)
+    else
+      pure (Json.arr (css.map (fun cs => stToJson pipe (run cfg (if tok then viaTokens cs else cs) e))).toArray)
   | "spec" =>
     let cfg ← cfgOfJson (← j.getObjVal? "cfg")
     let e ← endOfString (← (← j.getObjVal? "end").getStr?)
